@@ -76,7 +76,7 @@ pub fn replay(_args: &[String]) {
 
 const POOL: &[&str] = &[
     "a", "b", " ", "  ", "\t", "\n", "\r", "\r\n", "\"", "\"\"", "\"\"\"", "\\", "\\\"\"\"", "é", "🚀", "\u{feff}", "x y",
-    "\n ", "\n  ", "\n\t", " \n", "#", ",", "\\n", "\\u0041",
+    "\n ", "\n  ", "\n\t", " \n", "#", ",", "\\n", "\\u0041", "\u{a0}", "\n\u{a0}", "\u{3000}", "\u{2003}", "\u{2028}",
 ];
 
 /// C06 impl -> spec: random valid literals: {"lit": cps, "values": [[cps]...]} (every slot's decoded value)
